@@ -85,6 +85,11 @@ PROPS.update({
         ),
         bounded_only=["canonical form of results", "Mark.set_from", "schema compilation of excludes/marks"],
     ),
+    "C05": _bounded("C05", "c05", "documents (incl. explicit None / structured attribute values), fragments, slices, marks and all eight step kinds through json.dumps/loads: equality, identical re-serialisation, same effect and map, no aliasing; registry names."),
+    "C06": _bounded("C06", "c06", "per content expression (all syntax trees to a size bound, random larger, malformed token strings) the compiled matcher is compared with an independent derivative automaton by a product construction: acceptance and liveness for ALL child sequences of that expression. No contract within reach expresses this for all expressions (nfa/dfa are closures over shared mutable lists)."),
+    "C07": _bounded("C07", "c07", "check / valid_content / create_checked / can_replace (all index ranges and replacement sub-ranges) / can_replace_with / can_append against validity computed from the schema spec strings."),
+    "C15": _bounded("C15", "c15", "fill_before / create_and_fill / find_wrapping on every reachable match state of 11 schemas against BFS oracles over independent automata (soundness, completeness, shortest chain, cache consistency). fill_before and compute_wrapping are a recursive closure with shared `seen` and a BFS over dict records: outside the verifiable subset."),
+    "C19": _bounded("C19", "c19", "HTML fragments from a grammar + fixed edge cases: parse terminates and is oracle-valid; serialisation succeeds and escapes; whitespace-normal documents round-trip; context rules vs an oracle matcher. lxml, CSS selectors and regular expressions are outside any contract the verifier can discharge."),
     "C16": _bounded("C16", "c16", "ordered step pairs biased to adjacency: merged step vs the two steps."),
     "C17": _bounded("C17", "c17", "pairs of steps with separated touched ranges: rebase both ways, both orders equal."),
     "C18": _bounded("C18", "c18", "every range inside every isolating node x replace-family operations: tokens outside the node unchanged; lift_target / can_split do not cross."),
